@@ -35,6 +35,9 @@ def run(ctx) -> None:
     ctx.guard("C06.partition", partition_volume)
     ctx.guard("C06.multi-disp", multi_disp)
     ctx.guard("C06.config", config)
+    from .common import class_state_rule
+
+    ctx.guard("C06.config", class_state_rule, "C06.config", ("BaseWorklist", "EvoWorklist", "FluentWorklist"), "max_volume / auto_split / device")
 
 
 def config(ctx) -> None:
@@ -279,6 +282,10 @@ def iteration_space(ctx, dev) -> None:
 # --------------------------------------------------------------------------- partition_volume
 def partition_volume(ctx) -> None:
     rule = "C06.partition"
+    from .common import buffer_dtype_rule
+
+    if buffer_dtype_rule(ctx, rule, ("partition_volume",)) == 0:
+        ctx.rep.holds(rule, "partition_volume/no-typed-buffer", "the step list is not kept in a numpy buffer that takes its dtype from the first step")
     f = ctx.prog.require_func("partition_volume", rule)
     fv = ctx.fv(f)
     V, M = ast.Name(id="volume", ctx=ast.Load()), ast.Name(id="max_volume", ctx=ast.Load())
@@ -381,6 +388,26 @@ def _check_list(ctx, rule, fv, f, rn, lname: str, pv: Poly, pm: Poly) -> None:
             lower = True if (quotient_ok(other) or (call_fname(other) == "ceil" and other.args and quotient_ok(other.args[0]))) else None
         elif fn in ("round", "floor", "int", "trunc") and term.args and (quotient_ok(term.args[0])):
             lower = False
+        elif fn in ("min", "max", "minimum", "maximum") and len(term.args) >= 2:
+            # min(..) is >= volume/steps only if every operand is; max_volume itself is (volume/steps <= max_volume by the
+            # choice of the step count), a rounded-down version of it is not
+            def lower_of(t_):
+                f_ = call_fname(t_)
+                if quotient_ok(t_) or (f_ == "ceil" and t_.args and quotient_ok(t_.args[0])) or is_name(t_, "max_volume"):
+                    return True
+                if f_ in ("floor", "trunc", "int", "round", "rint") and t_.args and (is_name(t_.args[0], "max_volume") or quotient_ok(t_.args[0])):
+                    return False
+                if f_ in ("min", "minimum") and t_.args:
+                    vals = [lower_of(a_) for a_ in t_.args]
+                    return False if False in vals else (True if all(v is True for v in vals) else None)
+                if f_ in ("max", "maximum") and t_.args:
+                    vals = [lower_of(a_) for a_ in t_.args]
+                    return True if True in vals else (False if all(v is False for v in vals) else None)
+                return None
+
+            lower = lower_of(term)
+            ups = [a_ for a_ in term.args if is_name(a_, "max_volume") or (call_fname(a_) in ("floor", "trunc") and a_.args and is_name(a_.args[0], "max_volume"))]
+            upper = True if (fn in ("min", "minimum") and ups) else None
         if lower is False:
             ctx.rep.refuted(rule, c + "/lower", f"the equal steps are `{show(term)[:60]}`, which can be smaller than volume/steps: the remainder then exceeds max_volume (refused or capped, i.e. liquid is lost)", where=w)
         elif lower is None:
